@@ -508,6 +508,9 @@ impl World {
                 tab.sort_by_key(|id| tkey.distance(&discv5::Key::from(*id)));
                 tab.truncate(if pred.is_some() { k } else { 16 });
                 info.insert("closest".into(), json!(tab.iter().map(|id| self.id_name(id)).collect::<Vec<_>>()));
+                // the XOR order of all nodes the behaviour can mention (for the co-simulation of the lookup by Query.tla)
+                let rk: Map<String, Value> = ranks.iter().map(|(id, r)| (self.id_name(id), json!(r))).collect();
+                info.insert("ranks".into(), Value::Object(rk));
                 info.insert("pred".into(), json!(pred.is_some()));
                 let fut_plain = if pred.is_none() { Some(self.d.find_node(target)) } else { None };
                 let fut_pred = if pred.is_some() { Some(self.d.find_node_predicate(target, Box::new(|e: &Enr| e.udp4_socket().is_some()), k)) } else { None };
